@@ -360,10 +360,17 @@ def width_slicer(prog, rep):
             lows, last = E[2]
             # the lower edges are the interval starts S = arange(min, max + w, w) THEMSELVES: the first edge is then exactly the
             # lower limit (an edge rebuilt as (S + w/2) - w/2 is not, and the observation on a non-zero lower limit is in no interval)
-            if lows[0] == "call" and lows[1] == G("numpy.arange") and len(lows[2]) == 3:
+            st_form = _starts_form(lows, w)
+            if st_form is not None:
                 S = lows
-                a0, a1, a2 = S[2]
+                (a0, a1, a2), exact = st_form
                 okc = a2 == w and a1[0] == "bin" and a1[1] == "+" and algebra.same(a1[3], w) and algebra.same(last, ("bin", "+", ("sub", S, ("const", -1)), w))
+                if okc and not exact:
+                    okc = False
+                    why_e = ("the starts are the VALUES of np.arange(min, max + width, width): arange fills them as min + i * ((min + width) - min), and for a lower limit "
+                             "that is large against the width (min + width) - min is not the width (1e12 and 0.001: 0.0009765625), the error grows with i, the last edge "
+                             "falls short of max(data) and the largest observations are in no interval; take only the NUMBER of intervals from arange and compute "
+                             "the starts as min + width * np.arange(n)")
             elif lows[0] == "bin" and lows[1] == "-":
                 why_e = (f"the lower edges are recomputed as {show(lows)[:80]}: in floating point (s + w/2) - w/2 is not s, so the lowest edge is not the lower "
                          "limit and an observation exactly on a non-zero lower limit belongs to no interval; use the starts arange(min, max + w, w) themselves")
@@ -414,6 +421,28 @@ def width_slicer(prog, rep):
                     late = [n for n in users if cfg.reachable(cfg.node(s[2]), n)]
                     rep.check(not late, "C10.refs", f"{q}:reference:{kind}:order", fn.where(s[2]), "shift happens after edges and masks are computed",
                               "the in-place reference shift is followed by a computation of edges/masks from the shifted array: intervals move with the reference")
+
+
+def _starts_form(lows, w):
+    """((start, stop, step), exact) when lows are the interval starts of arange(start, stop, step): its values themselves (exact False:
+    they accumulate the rounding of (start + step) - start) or start + step * arange(n) with n the LENGTH of that arange (exact True)."""
+    if lows[0] == "call" and lows[1] == G("numpy.arange") and len(lows[2]) == 3 and not lows[3]:
+        return lows[2], False
+    for x in walk(lows):
+        if x[0] == "call" and x[1] == G("numpy.arange") and len(x[2]) == 1 and not x[3]:
+            n = x[2][0]
+            src = None
+            if n[0] == "call" and n[1] == G("len") and len(n[2]) == 1:
+                src = n[2][0]
+            elif n[0] == "attr" and n[2] == "size":
+                src = n[1]
+            elif n[0] == "sub" and n[1][0] == "attr" and n[1][2] == "shape" and n[2] == ("const", 0):
+                src = n[1][1]
+            if src is not None and src[0] == "call" and src[1] == G("numpy.arange") and len(src[2]) == 3 and not src[3]:
+                a0, a1, a2 = src[2]
+                if algebra.same(lows, ("bin", "+", a0, ("bin", "*", a2, x))):
+                    return src[2], True
+    return None
 
 
 def is_edge_pairs(t, E):
